@@ -199,13 +199,19 @@ class _Obj:
         self.pairs = pairs
 
 
-def key_universe(rnd, with_object=True):
+ZEROS = ["-0", "0", "0.0", "-0.0", "0e0", "-0e-1"]
+
+
+def key_universe(rnd, with_object=True, zeros=False):
     """A per-run universe of sort/unique key values: all types, many ties (equal values in different spellings), at most
     one distinct object (the order between two different objects is not documented)."""
     u = [("null",), ("bool", False), ("bool", True)]
     u += [("str", cps(s)) for s in rnd.sample(KEY_STRINGS, 6)]
     u += [("num", n) for n in rnd.sample(KEY_NUMBERS, 8)]
     u += [parse_ast(a) for a in rnd.sample(KEY_ARRAYS, 5)]
+    if zeros:
+        # zero in its signed spellings (C07: one value, ties in arrival order; C10 excludes -0)
+        u += [("num", z) for z in rnd.sample(ZEROS, 3)] + [("arr", [("num", rnd.choice(ZEROS))])]
     if with_object:
         u.append(parse_ast(rnd.choice(['{}', '{"a":1}', '{"b":[1,2],"a":null}'])))
     return u
@@ -290,7 +296,7 @@ def rand_cfg(rnd, focus="all"):
         c["selects"] = sels
     if rnd.random() < 0.3:
         c["set"] = [{"name": cps("v"), "v": enc(rnd.choice([("num", "7"), ("str", cps("x")), ("arr", [("num", "1")])]))}]
-    if focus in ("all", "unique", "stop", "stream") and rnd.random() < (0.3 if focus == "all" else 0.6):
+    if focus in ("all", "unique", "stop", "stream", "limit", "group") and rnd.random() < (0.3 if focus in ("all", "limit", "group") else 0.6):
         c["unique"] = True
     if focus in ("all", "sort", "limit", "group") and rnd.random() < (0.5 if focus != "sort" else 1.0):
         ks = rnd.sample(["k1", "k2", "k3"], rnd.choice([1, 1, 2, 3]))
